@@ -106,17 +106,21 @@ func (sc *scen) certain(p *point, cyc []cycle) (time.Time, bool) {
 }
 
 type scenResult struct {
-	PresentData, AbsentData   int
-	PresentCat, AbsentCat     int
-	PresentDisk, AbsentDisk   int
-	InBracket                 int
-	NotVisibleYet             int
-	CyclesSinceWrite          int
-	Violations                int
-	EverAbsentJudged          bool
-	CatAbsentUnjudgedNoIDs    int
-	KeptThroughCycles         int
-	E, Z                      string
+	PresentData, AbsentData int
+	PresentCat, AbsentCat   int
+	PresentDisk, AbsentDisk int
+	InBracket               int
+	NotVisibleYet           int
+	CyclesSinceWrite        int
+	Violations              int
+	EverAbsentJudged        bool
+	CatAbsentUnjudgedNoIDs  int
+	KeptThroughCycles       int
+	E, Z                    string
+	BySig                   map[string]int `json:",omitempty"`
+	TransientMiss           int
+	MissNoFollowUp          int
+	TransientSample         map[string]any `json:",omitempty"`
 }
 
 type violation struct {
@@ -153,6 +157,10 @@ func (sc *scen) judge(cyc []cycle, shards []shardObs, disks []diskObs) []violati
 	add := func(class string, p *point, what string, o map[string]any) {
 		sc.res.Violations++
 		sig := fmt.Sprintf("%s/%s/%s", class, sc.Spec.Kind, p.Role)
+		if sc.res.BySig == nil {
+			sc.res.BySig = map[string]int{}
+		}
+		sc.res.BySig[sig]++
 		if seenSig[sig] {
 			return
 		}
@@ -209,7 +217,36 @@ func (sc *scen) judge(cyc []cycle, shards []shardObs, disks []diskObs) []violati
 				if seen {
 					sc.res.PresentData++
 				} else if established[gk(p)] {
-					add("present-obligation:data", p, fmt.Sprintf("point not returned although its shard expires no earlier than %s, more than %s after the observation ended", l.e.Format(time.RFC3339Nano), margin), ob)
+					// What the retention service removes never comes back, so a miss is
+					// charged to it only if it lasts: the point is returned by none of the
+					// later observations (at least one of them still under the obligation).
+					// A miss that heals is a read anomaly of another kind (seen once: a
+					// point acknowledged 0.5 s earlier missing from one answer) and is
+					// reported as inconclusive for this property.
+					later, healed := 0, false
+					for _, o2 := range sc.obs[oi+1:] {
+						if o2.Err != "" || cut(o2.T1) {
+							continue
+						}
+						if o2.Seen[key(p.RP, p.T)] {
+							healed = true
+							break
+						}
+						if o2.T1.Add(margin).Before(l.e) {
+							later++
+						}
+					}
+					switch {
+					case healed:
+						sc.res.TransientMiss++
+						if sc.res.TransientSample == nil {
+							sc.res.TransientSample = map[string]any{"point": p, "observation": ob}
+						}
+					case later == 0:
+						sc.res.MissNoFollowUp++
+					default:
+						add("present-obligation:data", p, fmt.Sprintf("point not returned (nor by any of the %d later observations under the same obligation) although its shard expires no earlier than %s, more than %s after the observation ended", later, l.e.Format(time.RFC3339Nano), margin), ob)
+					}
 				} else {
 					sc.res.NotVisibleYet++
 				}
